@@ -86,17 +86,17 @@ theorem Inv_init (R : ViewRel) (c : Cfg) : Inv R { cfg := c } F0 where
     · simp [h] at hf; subst hf; simp
     · simp [h] at hf
 
-theorem HistOk_cons (R : ViewRel) (p : PState) (x : Sched) (h : List Sched) :
-    HistOk R p (x :: h) ↔ StepOk R p x ∧ HistOk R (p.step x).2 h := by
-  cases x <;> simp [HistOk, StepOk]
+theorem SchedHistOk_cons (R : ViewRel) (p : PState) (x : Sched) (h : List Sched) :
+    SchedHistOk R p (x :: h) ↔ StepOk R p x ∧ SchedHistOk R (p.step x).2 h := by
+  cases x <;> simp [SchedHistOk, StepOk]
 
 /-- every history keeps the file system well formed and the invariant true -/
 theorem exec_inv (R : ViewRel) (m : MState) (h : List Sched) (hwf : m.fs.WF) (hinv : Inv R m.p m.fs.file)
-    (hok : HistOk R m.p h) : (m.exec h).fs.WF ∧ Inv R (m.exec h).p (m.exec h).fs.file := by
+    (hok : SchedHistOk R m.p h) : (m.exec h).fs.WF ∧ Inv R (m.exec h).p (m.exec h).fs.file := by
   induction h generalizing m with
   | nil => exact ⟨hwf, hinv⟩
   | cons x h ih =>
-    rw [HistOk_cons] at hok
+    rw [SchedHistOk_cons] at hok
     have hs := Fs.run_spec m.fs hwf (m.p.step x).1
     have hi := Inv_step R m.p m.fs.file hinv x hok.1
     show ((m.step x).exec h).fs.WF ∧ _
